@@ -99,10 +99,17 @@ def run(c):
     c.rule = ("generated typed quasigo programs (1-4 functions: nested if/else ending in returns, loops with break, calls and "
               "natives in every operand position, ||/&& in every expression position, up to 8 locals) x argument tuples, and histories "
               "(2-4 units declaring the same function names compiled into one Env one after the other: generated, template, "
-              "re-loaded, reversed and rejected units; functions of earlier units called after later units were compiled); a case is "
+              "re-loaded, reversed and rejected units; functions of earlier units called after later units were compiled), and data "
+              "programs (functions built around families of near-colliding constants - long common prefixes, quoted forms longer than "
+              "the value, case / blank / NUL / normalisation variants, numerals next to the ints of the same text, ints equal modulo "
+              "2^8..2^32, range ends - every member spelled differently at every use: raw / split / named / hex / rune / folded "
+              "expressions; natives with 0..4 variadic arguments whatever the format asks for, needles cut from the haystack, border "
+              "counts and numerals; argument tuples enumerated or drawn from the constants of the program and their neighbours); a case is "
               "one (program or history, function, argument tuple); non-trivial and distinct by (construct set, result kind, "
               "panic/normal), per program by its bytecode, per history by its sequence of unit kinds; engine level: "
-              "(rule group, probe site) pairs of the dsl/types differential, distinct per pair name with both verdicts seen")
+              "(rule group, probe site) pairs of the dsl/types differential (incl. groups that keep several objects of the dsl API "
+              "alive at once: two DoVar handles, types, interfaces, fields, constructed types, in both orders, through locals, helper "
+              "parameters and pending operands), distinct per pair name with both verdicts seen")
     c.trusted += [
         "go2coq quasigo / quasigoenv / quasigoconst (read opcodes.gen.go, isUncondJump, bindLabel, eval's call cases, native bodies and dsl declarations, "
         "the bodies of Env.addFunc/RemoveFunc and the shape of the other Env accessors and of irLoader.compileFilterFuncs, the statements of "
@@ -113,7 +120,10 @@ def run(c):
     ]
     c.notes += ["forward simulation for terminating runs; divergence preservation is not proved",
                 "the Env model covers the user-function table and name binding; native tables are fixed at engine construction",
-                "natives are oracles: their results are taken from the traced real calls"]
+                "natives are oracles: their results are taken from the traced real calls; that the oracle of a stdlib native is the Go "
+                "function itself rests on stdlib_wrappers_are_transparent (regenerated bodies) and on the go build differential",
+                "constant pools: the slices and maps of the source are modelled (ConstPool.v), compileConstantValue and the intern functions "
+                "are translated and proved to be Compile.cconst for all pool states"]
 
     c.build_theories()
     c.require_theories("Base/*.v", "Quasigo/*.v")
